@@ -120,7 +120,15 @@ PropHint(path, v, ch) ==
     [] ch = "elemlast" -> (path \o "/" \o ToString(Len(v.v) - 1)) :> "drop"
     [] OTHER -> path :> ch
 
+\* single-precision floats that no short decimal denotes exactly (0.1f, 1/3 as a float32, the largest below 1):
+\* each against the very same number held in double precision, in both operand orders - equal, not ordered
+F32U == << Flt(13421773, 134217728), Flt(11184811, 33554432), Flt(16777215, 16777216), Flt(0 - 13421773, 134217728) >>
+EmitF32 == \A k \in 1..Len(F32U) : \A side \in {"a", "b"} :
+  PrintT(ToJson([id |-> "f32-" \o ToString(k) \o "-" \o side, kind |-> "render", tm |-> "TraceC09",
+                 a |-> F32U[k], b |-> F32U[k], prog |-> Prog, env |-> << <<A, F32U[k]>>, <<B, F32U[k]>> >>, repr |-> (side :> "float32")]))
+
 EmitCase ==
+  /\ (i = 1 /\ j = 1) => EmitF32
   /\ PrintT(ToJson([id |-> "prop-" \o ToString(i) \o "-" \o ToString(j), kind |-> "render", tm |-> "TraceC09",
                     a |-> a, b |-> b, prog |-> PropProg, env |-> << <<MM, MapV(<< <<XX, a>>, <<YY, b>> >>)>> >>,
                     repr |-> PropHint("m/x", a, Pick(a, i + j + 2)) @@ PropHint("m/y", b, Pick(b, i + 2 * j + 1))]))
